@@ -232,7 +232,7 @@ func c07Program(w *W, id int) {
 		}
 		s := solarOf(cur)
 		j := ref.JDN(cur.Y, cur.M, cur.D)
-		op := rng.Intn(16)
+		op := rng.Intn(18)
 		var out *calendar.Solar
 		var want *ref.Stamp
 		name := ""
@@ -345,6 +345,23 @@ func c07Program(w *W, id int) {
 				l2 := calendar.NewLunar(mn.GetYear(), mn.GetMonth(), mn.GetDayCount(), cur.H, cur.Mi, cur.S)
 				c07CheckLunar(w, l2, trace+" -> "+name)
 				out = l2.GetSolar()
+			case 16, 17:
+				// a caller inspects the year (every accessor of the cached year object and of its months, printing included),
+				// then converts a date of that year: half of the time one from the weeks before the lunar New Year
+				name = "inspect LunarYear, then GetLunar().GetSolar()"
+				if op == 17 {
+					cur.M, cur.D = 1+rng.Intn(2), 1+rng.Intn(28)
+					name = fmt.Sprintf("inspect LunarYear, then %s GetLunar().GetSolar()", fmtStamp(cur))
+					s = solarOf(cur)
+				}
+				prodCache(cur.Y)
+				l := s.GetLunar()
+				c07CheckLunar(w, l, trace+" -> "+name)
+				prodCache(l.GetYear())
+				l2 := calendar.NewLunar(l.GetYear(), l.GetMonth(), l.GetDay(), cur.H, cur.Mi, cur.S)
+				c07CheckLunar(w, l2, trace+" -> "+name+" -> NewLunar")
+				out = l2.GetSolar()
+				want = &cur
 			case 15:
 				name = "Tao/Foto round trip"
 				l := s.GetLunar()
